@@ -791,6 +791,12 @@ class Dict(dict, base.Symbolic, pg_typing.CustomTyping):
     key, value = super().popitem()
     self._detach(value)
     self._invalidate_content_cache()
+    if flags.is_change_notification_enabled():
+      self._notify_field_updates([
+          base.FieldUpdate(
+              utils.KeyPath(key, self.sym_path), self, None,
+              value, pg_typing.MISSING_VALUE)
+      ])
     return key, value
 
   def clear(self) -> None:
@@ -799,13 +805,26 @@ class Dict(dict, base.Symbolic, pg_typing.CustomTyping):
       raise base.WritePermissionError('Cannot clear a sealed Dict.')
     value_spec = self._value_spec
     self._value_spec = None
-    for value in self.sym_values():
+    removed = list(self.sym_items())
+    for _, value in removed:
       self._detach(value)
     super().clear()
     self._invalidate_content_cache()
 
     if value_spec:
       self.use_value_spec(value_spec, self._allow_partial)
+    if flags.is_change_notification_enabled():
+      schema = value_spec.schema if value_spec else None
+      updates = []
+      for key, old_value in removed:
+        new_value = self.sym_getattr(key, pg_typing.MISSING_VALUE)
+        if new_value is not old_value:
+          updates.append(base.FieldUpdate(
+              utils.KeyPath(key, self.sym_path), self,
+              schema.get_field(key) if schema else None,
+              old_value, new_value))
+      if updates:
+        self._notify_field_updates(updates)
 
   def setdefault(self, key: Union[str, int], default: Any = None) -> Any:
     """Sets default as the value to key if not present."""
